@@ -24,8 +24,8 @@ RULES = {
     "C17": [("sa.rules.b3", "r_C03de_C11a_C17bc"), ("sa.rules.b6", "r_C17ad_C22b")],
     "C18": [("sa.rules.b4", "r_ledger")],
     "C19": [("sa.rules.b6", "r_C19a_C01")],
-    "C20": [("sa.rules.b1", "r_C20a")],
-    "C21": [("sa.rules.b2", "r_C21a")],
+    "C20": [("sa.rules.b1", "r_C20a"), ("sa.rules.b6", "r_C19a_C01")],
+    "C21": [("sa.rules.b2", "r_C21a"), ("sa.rules.b6", "r_C19a_C01")],
     "C22": [("sa.rules.b6", "r_C19a_C01"), ("sa.rules.b6", "r_C17ad_C22b")],
     "C23": [("sa.rules.b6", "r_C23")],
     "C24": [("sa.peg", "r_C24")],
